@@ -162,7 +162,11 @@ Record classdef := {
   k_preset : list (name * pval);           (* hasattr(instance, n) right after construction *)
   k_setup : bool                           (* has a setup() method *)
 }.
-(* A robot annotation  m: K : the instance K( **injections) has identity c_oid *)
+(* A robot annotation  m: K : the instance K( **injections) has identity c_oid.
+   [c_class] describes THIS instance: several components may be instances of
+   one class (same k_cls, k_init_hints, k_hints) and still differ in k_preset,
+   because hasattr is a fact about the instance (an __init__ that sets an
+   attribute depending on a constructor argument, ...). *)
 Record compdef := { c_oid : nat; c_truthy : bool; c_class : classdef }.
 Definition comp_obj (d : compdef) : obj :=
   {| oid := c_oid d; ocls := k_cls (c_class d); otruthy := c_truthy d |}.
